@@ -34,6 +34,7 @@ func checkC07(w *World, r *Report) {
 	r.Explanation += " Rules added in later rounds: (R07.6) the names escape/e are never rebound; (R07.7) an apply node writes only the converted result of applying its filter. (R07.8) stringifiers return strings unchanged. (R07.5) loops that copy a chain keep every item."
 	r.Explanation += " Round 9: (R07.10) the in-text interpolator sees template source only."
 	r.Explanation += " Round 10: (R07.11) all questions put to the policy are formed alike."
+	r.Explanation += " Round 14: (R07.9) the apply handler returns an ApplyNode."
 	r.RuleText = "obligation = one table entry / one binding / one return; non-trivial = table arms evaluated with the HTML decoder and the return-flow check"
 	r.Trusted = []string{"html.EscapeString replaces exactly & ' < > \" (Go standard library)", "html.UnescapeString used as the independent decoder inside the checker"}
 
